@@ -37,6 +37,13 @@ func watch(ch chan []tls.Certificate, refresh time.Duration, path string, loadFn
 			continue
 		}
 
+		// a source that suddenly has nothing must not take away the certificates in use
+		if len(certs) == 0 && len(last) > 0 {
+			log.Printf("[ERROR] cert: No certificates found in %s. Keeping the current ones", path)
+			time.Sleep(refresh)
+			continue
+		}
+
 		ch <- certs
 		last = next
 
